@@ -10,7 +10,8 @@ LEAN_MODULES = ["Ccp.Props.C08"]
 RULE = ("statement trees (depth 0..6, fan-out 0..5, first statement level may be empty) whose words are drawn from the "
         "whitespace-separated tokens of the junos and F5 fixture files under tests/fixtures/configs (no Palo-Alto fixture exists "
         "in the repo; its set-style words are covered by the hand list) plus a hand list ('[', ']', 'a:80', '1.2.3.4/24', "
-        "quoted strings, '*', ';x', 'a;b', '##', '#'), rendered with a random layout per node: whitespace before the "
+        "quoted strings, '*', ';x', 'a;b', '##', '#'; 2% of the statements read 'banner motd ^' / 'banner login ^C' / "
+        "'set banner exec ^' so that a banner pass on a brace syntax would show), rendered with a random layout per node: whitespace before the "
         "statement (indent of blanks and/or tabs, blank lines, CR LF), semicolon present/absent, whitespace after the text "
         "(trailing blanks, or line breaks that put the opening brace on the next line), childless statements optionally "
         "written as an empty block, whitespace before and after the closing brace (one-line blocks, compact 'a{b}', "
@@ -19,30 +20,36 @@ RULE = ("statement trees (depth 0..6, fan-out 0..5, first statement level may be
         "leaf statements, in the main stream only where the bootstrap's legacy comment exception cannot apply. "
         "Streams: tree (the property's quantifier), drop (one structural '}' deleted, an error is expected), quotestart "
         "(a statement begins with a quote character: F31), cmtafter (a '#' line follows a nested block inside a block: F32), "
+        "every stream compares texts AND parent links of CiscoConfParse(syntax='junos') with the model (conversion + pass 1 of the "
+        "shared bootstrap model); "
         "fixture (the 7 brace-syntax fixture files, implementation vs model plus an independent line-based converter where "
         "the file is in one-statement-per-line form), adversarial (character soup over braces, quotes, backslashes, tabs, CR, "
         "vertical tab, non-ASCII: implementation vs model only). Non-ASCII statements raise in pyparsing and are outside the "
         "property's alphabets: generated only in the adversarial stream. non-trivial = a tree of depth>=2 with >=4 statements "
         "rendered in a non-canonical layout, or a dropped brace, distinct by request line.")
-LEVEL_TEXT = ("Theorems (Lean 4, all well-formed statement trees, all layouts whose white space is blank/LF/CR — indentation, "
-              "blank lines, trailing blanks, semicolons present or absent, brace on the same or a later line, one-line and empty "
-              "blocks): converting the rendering returns exactly the preorder flattening with 4 blanks per level "
-              "(brace_roundtrip_partial; tabs in the layout are measured by correspondence only); in that flattening the nearest "
-              "preceding line with smaller indentation is the tree parent (flatten_parent); deleting one closing brace yields "
-              "ParseException (missing_close_errors_partial, for renderings without quote characters). The model (tab expansion, "
-              "pyparsing nested_expr/quoted_string tokenizer, recursive descent, unpack) is tied to convert_junos_to_ios / "
-              "CiscoConfParse(syntax='junos') by differential runs on every check.")
+LEVEL_TEXT = ("Theorems (Lean 4, all well-formed statement trees, all layouts whose white space is blank/tab/LF/CR — indentation, "
+              "blank lines, trailing white space, semicolons present or absent, brace on the same or a later line, one-line and "
+              "empty blocks): converting the rendering returns exactly the preorder flattening with 4 blanks per level "
+              "(brace_roundtrip); on that flattening the shared bootstrap model verified by C01-C03 (linkByIndent = C02's "
+              "specParent) links every statement to the statement that opened its innermost enclosing block "
+              "(flatten_parent_shared, local_rule_is_specParent, junos_tree); every accepted brace-syntax input yields a C03 "
+              "forest (junos_forest); deleting any one closing brace yields ParseException (missing_close_errors, quotes inside "
+              "statements and tabs allowed). The model (tab expansion, pyparsing nested_expr/quoted_string tokenizer, recursive "
+              "descent, unpack, then pass 1 of the shared bootstrap) is tied to convert_junos_to_ios / "
+              "CiscoConfParse(syntax='junos') texts and parent links by differential runs on every check.")
 LEVEL_NOTE = ("Trusted: Lean kernel; axioms propext/Classical.choice/Quot.sound only; the correspondence harness; pyparsing is "
-              "modelled, not verified (behaviour re-implemented by hand and measured). Proved about the model, measured against the code.")
+              "modelled, not verified (behaviour re-implemented by hand and measured). Hypotheses of the theorems: words are "
+              "non-empty visible ASCII without braces, the first word of a statement does not start with a quote (F31), the last "
+              "word does not end with ';'; for the parent theorem additionally no statement starts with '#' (a '#' line under a "
+              "deeper line is a root by C02's legacy comment exception: F32). Proved about the model, measured against the code.")
 EXHAUSTIVE = {"quick": False, "thorough": False}
 ASSUMPTIONS = [
     "pyparsing 3.1.1 nested_expr/quoted_string/expandtabs behave as the hand-written tokenizer (measured, not proved)",
     "words are non-empty printable ASCII without braces; the first word of a statement does not start with a quote "
     "(F31); the last word does not end with ';'",
-    "roundtrip theorem: layout whitespace is blank / LF / CR (tabs are covered by correspondence only)",
-    "missing-close theorem: additionally no quote character anywhere in a word",
-    "the parent rule is stated locally (nearest preceding line with strictly smaller indentation); its connection to the "
-    "bootstrap is C02's",
+    "layout white space is blank / tab / LF / CR",
+    "parent theorem: no statement starts with '#' (comment lines are linked by C02's rule, including its legacy exception)",
+    "for a brace syntax the bootstrap is pass 1 of the shared tree model only (no banner / macro pass), blank lines kept",
 ]
 TRUSTED = ["pyparsing 3.1.1 (modelled)", "str.expandtabs (modelled)"]
 
@@ -80,6 +87,9 @@ def isq(w):
 
 def gen_words(rng, first_ok=lambda w: not isq(w) and not w.startswith("#")):
     pool = words_pool()
+    if rng.random() < 0.02:
+        # looks like an IOS banner start: a brace syntax must not run the banner pass on it
+        return rng.choice([["banner", "motd", "^"], ["banner", "login", "^C"], ["set", "banner", "exec", "^"]])
     n = rng.choice([1, 1, 2, 2, 3, 4, 6])
     ws = [rng.choice(pool) for _ in range(n)]
     for _ in range(50):
@@ -198,7 +208,7 @@ def tree_case(rng, kind="tree"):
     if kind == "cmtafter":
         _add_comments(rng, tree, safe=False)
     text = render(rng, tree, style)
-    return mk(kind, text.split("\n"), op="conv" if kind == "tree" else "txt", tree=tree, style=style)
+    return mk(kind, text.split("\n"), op="conv", tree=tree, style=style)
 
 
 def _walk(tree):
@@ -237,8 +247,8 @@ def drop_case(rng):
         if pos:
             p = rng.choice(pos)
             text2 = text[:p] + text[p + 1:]
-            return mk("drop", text2.split("\n"), op="txt", tree=c["tree"], style=c["style"], dropped=p)
-    return mk("drop", ["a {", "b;"], op="txt", tree=[["a"], [["b"], []]], style="junos", dropped=0)
+            return mk("drop", text2.split("\n"), op="conv", tree=c["tree"], style=c["style"], dropped=p)
+    return mk("drop", ["a {", "b;"], op="conv", tree=[["a"], [["b"], []]], style="junos", dropped=0)
 
 
 SOUP = ['{', '}', '{', '}', ' ', ' ', '\t', '"', "'", ';', '\\', 'x', 'a', '1', 'f', 'g', '#', '\n', '\r', '\x0b',
@@ -254,19 +264,19 @@ def soup_case(rng):
     if rng.random() < 0.6:
         txt = 'h {' + txt + '}'
     lines = txt.split('\n') if rng.random() < 0.7 else [txt]
-    return mk("adversarial", lines, op="txt")
+    return mk("adversarial", lines, op="conv")
 
 
 HAND = [[""], ["", ""], [";"], ["a {", ";", "}"], ['"k 1" value;'], ['x "a""'], ['"a""'], ['"a\\', 'b" c'], ["a\tb;\t"],
         ["a\x0bb"], ["a\rb"], ["\xe9"], ["{"], ["}"], [" {}"], [" { a }"], ["a;;"], ["a ;"], ["a } b {"], ["a {", "b;"],
         ["a { b; c; }"], ["a { b; } c;"], ["a{b{c{d{e{f{g}}}}}}"], ["\ta {", "\t\tb;\t", "\t}"], ["a {}}"],
-        ['d "x { y" ;'], ['"x { y" z;'], ["'a\\x4g' b"], ["'a\\xg' b"], ["a {", "b;  ", "}"]]
+        ["banner motd ^", "a {", "b;", "c {", "d;", "}", "}", "e ^;"], ['d "x { y" ;'], ['"x { y" z;'], ["'a\\x4g' b"], ["'a\\xg' b"], ["a {", "b;  ", "}"]]
 
 
 def cases(rng, tier):
     if tier != "search":
         for h in HAND:
-            yield mk("adversarial", h, op="txt")
+            yield mk("adversarial", h, op="conv")
         yield mk("adversarial", [], op="txt")
         for fn in FIXTURES:
             path = os.path.join(FIXDIR, fn)
@@ -296,7 +306,7 @@ def neighbours(case, rng):
             del s[rng.randrange(len(s))]
         else:
             s.insert(rng.randrange(len(s) + 1), rng.choice(SOUP[:18]))
-        yield mk("adversarial", "".join(s).split("\n"), op="txt")
+        yield mk("adversarial", "".join(s).split("\n"), op="conv")
 
 
 def _canonical_layout(case):
